@@ -9,6 +9,7 @@ from vf.checks import parserlevel as PL
 
 PROPERTY = "C03"
 LEVEL = "exploration"
+SHRINKABLE = True  # violating documents are minimised (ddmin) before the replay file is written
 BASELINE = "C03"
 REQUIRED_COUNTERS = ["parsed", "compared"]
 ASSUMPTIONS = [
